@@ -21,7 +21,7 @@ RULE = ("generated systems plus build files mixing sphere / cylinder / rectangle
 ASSUMPTIONS = ["'average residue-pair size' is accepted as the larger of the tree average and the path average",
                "positive cone angles only; geometry predicates use a 1e-9 tolerance",
                "unsatisfiable draws end as time-outs (inconclusive), never as violations"]
-BUDGET = {"quick": (16, 30), "thorough": (16, 1200)}
+BUDGET = {"quick": (16, 45), "thorough": (16, 1200)}
 
 
 @st.composite
@@ -51,7 +51,7 @@ def _two_rings(draw):
 
 @st.composite
 def _strategy(draw):
-    kind = draw(st.sampled_from(["geom", "geom", "cone", "dist", "dist2", "cycle", "persist", "two_rings"]))
+    kind = draw(st.sampled_from(["geom", "geom", "geom", "cone", "dist", "dist2", "cycle", "persist", "two_rings"]))
     if kind == "two_rings":
         return draw(_two_rings())
     if kind == "cycle":
@@ -206,6 +206,16 @@ def _strategy(draw):
             ridx = draw(st.integers(1, nres - 1))
             opts["start"] = [f"{name}#{copy_idx}-{mt['residues'][ridx]['resname']}#{ridx + 1}"]
         restraints.append({"kind": "cycle", "mol": name, "tol": opts["cycle_tol"]})
+    if kind == "geom" and "start" not in opts and nres >= 2 and not mt.get("resids") and draw(st.booleans()):
+        # the residue ids of the restrained molecule do not ascend along its atom list (a fragment numbered
+        # k+1..n comes first, then 1..k): the ranges select by residue id all the same
+        k = draw(st.integers(1, nres - 1))
+        r1s = [r["r1"] for r in restraints if r.get("mol") == name and "r1" in r]
+        if r1s and min(r1s) - 1 <= nres - 1 and draw(st.booleans()):
+            # a restrained range that lies entirely in the fragment listed second
+            k = draw(st.integers(max(1, min(r1s) - 1), nres - 1))
+        mt["resids"] = list(range(k + 1, nres + 1)) + list(range(1, k + 1))
+        spec["rotated_resids"] = True
     spec["build"] = build or None
     spec["opts"] = opts
     spec["restraints"] = restraints
@@ -366,4 +376,6 @@ def check(spec, ctx):
                     nontrivial = True
                 ctx.label("ring_closed")
     ctx.label("kind_" + spec["kind"])
+    if spec.get("rotated_resids"):
+        ctx.label("residue_ids_not_ascending")
     ctx.nontrivial = nontrivial
